@@ -286,6 +286,89 @@ class ToListH(_Arr):
         return out
 
 
+class FromListH(_Arr):
+    """integer_ndarray.from_list / boolean_ndarray.from_list for a duplicate-free list of ids (symbolic ids: any of them
+    may or may not occur in the context): entry j is the 1-based position of context[j] in the list (integer arrays) /
+    1 (boolean arrays) if it is listed, 0 otherwise; the nested form converts row by row."""
+    name = "integer_ndarray.from_list"
+    function = "integer_ndarray.from_list"
+    functions = ["integer_ndarray.from_list", "boolean_ndarray.from_list"]
+
+    def cases(self):
+        out = []
+        for cls in ("integer", "boolean"):
+            for nl, nc in ((1, 1), (1, 2), (2, 2), (2, 3)):      # a non-empty list (from_list([], ctx) returns an EMPTY array, not zeros: observation, DESIGN 8)
+                out.append({"cls": cls, "lst": nl, "ctx": nc, "nested": False})
+            out.append({"cls": cls, "lst": 2, "ctx": 2, "nested": True})
+        return out
+
+    def setup(self, c, case):
+        from pyvc.sym import SId
+        c.symbolic_ids = True
+        lst = [SId(z3.Int(f"l{k}")) for k in range(case["lst"])]
+        cx = [SId(z3.Int(f"c{j}")) for j in range(case["ctx"])]
+        for a in range(len(lst)):
+            for b in range(a + 1, len(lst)):
+                c.assume_global(lst[a].t != lst[b].t)
+        for a in range(len(cx)):
+            for b in range(a + 1, len(cx)):
+                c.assume_global(cx[a].t != cx[b].t)
+        return {"lst": lst, "cx": cx}
+
+    def run(self, c, st):
+        self.begin_call(c)
+        pnd = c.repo.load("puan.ndarray")
+        cls = pnd.integer_ndarray if c.state_case["cls"] == "integer" else pnd.boolean_ndarray
+        arg = list(st["lst"])
+        if c.state_case["nested"]:
+            arg = [list(st["lst"]), list(reversed(st["lst"]))]
+        return cls.from_list(arg, list(st["cx"]))
+
+    def ensures(self, c, st, res):
+        lst, cx = st["lst"], st["cx"]
+        integer = c.state_case["cls"] == "integer"
+
+        def want(l, cid):
+            v = 0
+            for k in reversed(range(len(l))):
+                v = site(l[k] == cid, (k + 1) if integer else 1, v)
+            return v
+        rows = [(lst, res)] if not c.state_case["nested"] else [(lst, res[0]), (list(reversed(lst)), res[1])]
+        out = [("from_list.shape", tuple(res.shape) == ((len(cx),) if not c.state_case["nested"] else (2, len(cx))))]
+        if not out[0][1]:
+            return out
+        for r_, (l, row) in enumerate(rows):
+            for j, cid in enumerate(cx):
+                out.append((f"from_list[{r_},{j}]", row[j] == want(l, cid)))
+        return out
+
+    def concretise(self, case, k, model, c, st):
+        from .common import _mv
+        codes = {}
+
+        def name(t):
+            v = _mv(model, t.t)
+            return codes.setdefault(v, "id%d" % len(codes))
+        return {"lst": [name(t) for t in st["lst"]], "cx": [name(t) for t in st["cx"]], "case": dict(case)}
+
+    def replay(self, w):
+        import puan.ndarray as pnd
+        cls = pnd.integer_ndarray if w["case"]["cls"] == "integer" else pnd.boolean_ndarray
+        integer = w["case"]["cls"] == "integer"
+        arg = list(w["lst"]) if not w["case"]["nested"] else [list(w["lst"]), list(reversed(w["lst"]))]
+        res = cls.from_list(arg, list(w["cx"]))
+        violated = []
+        rows = [(w["lst"], res)] if not w["case"]["nested"] else [(w["lst"], res[0]), (list(reversed(w["lst"])), res[1])]
+        if tuple(res.shape) != ((len(w["cx"]),) if not w["case"]["nested"] else (2, len(w["cx"]))):
+            return {"violated": ["from_list.shape"], "detail": {"result": res.tolist()}}
+        for r_, (l, row) in enumerate(rows):
+            for j, cid in enumerate(w["cx"]):
+                exp = ((l.index(cid) + 1) if integer else 1) if cid in l else 0
+                if int(row[j]) != exp:
+                    violated.append(f"from_list[{r_},{j}]")
+        return {"violated": violated, "detail": {"list": arg, "context": w["cx"], "result": res.tolist()}}
+
+
 class LinalgH(_Arr):
     name = "ge_polyhedron.to_linalg"
     function = "ge_polyhedron.to_linalg"
@@ -315,4 +398,4 @@ class LinalgH(_Arr):
         return out
 
 
-HARNESSES = [PointsH(), ConstructH(), IndexSetsH(), ToListH(), LinalgH()]
+HARNESSES = [FromListH(), PointsH(), ConstructH(), IndexSetsH(), ToListH(), LinalgH()]
